@@ -25,6 +25,7 @@ RULE = ('Example multisets are built from 1-6 shape templates (1-5 fragments '
         'expression. Non-trivial: >=2 distinct kept examples share one coarse '
         'signature, or the sampling path is taken; distinct by case hash.')
 RULE += ' ' + "Also: 'matched in full' is re.fullmatch; examples that are another example plus a final line break; wide rows; zero-count dictionary keys; punctuation runs sharing exactly one of two extra letters; use_sampling=False Sizes."
+RULE += ' ' + 'Round 7 (shared generator): invisible non-white-space characters (U+FEFF, U+200B, U+2060) at the ends of examples.'
 ASSUMPTIONS = ['"matched in full" is re.fullmatch (until session 3 it was '
                'read as re.match on the anchored expression, which hid the '
                'defect repaired by 16bd489)']
